@@ -190,7 +190,35 @@ def static_case(ctx, mon, rng, S):
         ctx.judge(stratum, HELD, case, nontrivial=True)
 
 
+SMALL = [-3.0, -2.0, -1.0, 0.0, 1.0, 2.0, 3.0]
+
+
+def _small_pair(rng):
+    a, b = rng.sample(SMALL, 2)
+    return [a, b]
+
+
 def history_case(ctx, mon, rng, S):
+    if rng.random() < 0.12:
+        # every end point from a pool of seven small integers: many set-ups in one process that differ in exactly one end
+        # (-1 against -2, 0 against -0 ...), on one scale and its copies
+        ops = []
+        nlive = 1
+        for _ in range(rng.randrange(6, 16)):
+            r = rng.random()
+            i = rng.randrange(nlive)
+            if r < 0.45:
+                ops.append(["domain", i, _small_pair(rng)])
+            elif r < 0.8:
+                ops.append(["range", i, _small_pair(rng)])
+            elif r < 0.9:
+                ops.append(["clamp", i, rng.random() < 0.5])
+            else:
+                ops.append(["copy", i])
+                nlive += 1
+        ctx.path("small-integer-pool-history")
+        run_history(ctx, mon, S, {"type": "history", "init_domain": _small_pair(rng), "init_range": _small_pair(rng), "ops": ops})
+        return
     nops = rng.randrange(2, 11)
     ops = []
     nlive = 1
@@ -203,6 +231,8 @@ def history_case(ctx, mon, rng, S):
             ops.append(["range", i, rand_range(rng)])
         elif r < 0.42:
             ops.append(["clamp", i, rng.random() < 0.5])
+        elif r < 0.44:
+            ops.append(["interpolate-round-trip", i])  # s.interpolate(s.interpolate()): sets what is already set
         elif r < 0.46:
             # the list the scale hands out (or was given) is edited in place and passed to the setter again
             ops.append([rng.choice(["range-edit-in-place", "domain-edit-in-place"]), i, rng.choice([0, 1]), rand_mag(rng, -3, 6)])
@@ -247,6 +277,8 @@ def run_history(ctx, mon, S, case):
                     acc(lst)
                     wi["range" if op[0].startswith("range") else "domain"] = list(lst)
                     edited = True
+            elif op[0] == "interpolate-round-trip":
+                o.interpolate(o.interpolate())
             elif op[0] == "clamp":
                 o.clamp(op[2])
                 wi["clamp"] = bool(op[2])
